@@ -265,6 +265,10 @@ func c05InitPairs() {
 	c2 := contents(256, 16)
 	imgs2 := [2]image.Image{buildImage(kGray, 0, 256, c2[9]), buildImage(kRGBA, 0, 256, c2[len(c2)-2])}
 	add("NewPHash256Alt", func(w int) string { return hashOutcome(hashSizes[1].alt(imgs2[w])) })
+	// one chroma-subsampled and one 4:4:4 image: the conversion kernel is chosen per call, never for the process
+	imgs420 := [2]image.Image{buildImage(kYCbCr420, 0, 64, cs[25]), buildImage(kYCbCr, 0, 64, cs[len(cs)-2])}
+	add("NewPHash64Alt(4:2:0 || 4:4:4)", func(w int) string { return hashOutcome(hashSizes[0].alt(imgs420[w])) })
+	add("NewPHash64(4:2:0 || 4:4:4)", func(w int) string { return hashOutcome(hashSizes[0].primary(imgs420[w])) })
 	add("NewPHash256", func(w int) string { return hashOutcome(hashSizes[1].primary(imgs2[w])) })
 	imgs3 := [2]image.Image{buildImage(kRGBA, 0, 64, cs[33]), buildImage(kYCbCr, 0, 64, cs[len(cs)-3])}
 	add("EncodeBlurHashFast", func(w int) string { s, err := imagehash.EncodeBlurHashFast(imgs3[w]); return s + "|" + errStr(err) })
@@ -554,6 +558,10 @@ func c05FirstUse(x *mc.Exec) {
 				c = x.Choose("sched", n)
 			case kind == "sched":
 				c = x.All("sched", n)
+			case os.Getenv("GORACE") != "":
+				// race build: every Get is answered by New, so that no pooled object orders the two first calls
+				// and the detector judges everything they share
+				c = n - 1
 			default:
 				c = x.Choose("pool-answer", n)
 			}
